@@ -184,7 +184,11 @@ def slots_task(tier):
     return ts
 
 
+from .kani import KaniSpec      # noqa: E402
+
 PROPS = {
+    'C15': KaniSpec('c15_', "Hex observers, indices and the six range kinds agree with the byte slice (ok / panic harness pairs); equality across representations; i64/f64 conversions"),
+    'C16': KaniSpec('c16_', "concat is byte-string concatenation for all four representation combinations, split by the region of the recorded finding", known_harness='c16_concat_inside_known_region'),
     'C01': GraphSpec(['add', 'put', 'data', 'bind', 'next_id', 'readers'],
                      "GC safety as a step relation from every Inv state: only data(v) removes, only members of v's group "
                      "(ghost bind-history relation: linked/bound), none of them unread; all other calls leave every tag; "
